@@ -170,6 +170,9 @@ func configuredDefaults(bt *built) map[string]confDefault {
 // runCase evaluates one case and returns its failures. rejected: schema.New refused the definition.
 func (h *harness) runCase(c *Case) (fails []failure, rejected bool) {
 	defer resetBuiltinDirectives()
+	if len(c.Parts) == 1 && c.Parts[0] == "clonecrash" {
+		return h.cloneCrashPart(c), false
+	}
 	bt, s, err := safeBuild(c.S)
 	if err != nil {
 		h.count("schema.New error: " + errClass(err.Error()))
@@ -283,6 +286,9 @@ func (h *harness) runCase(c *Case) (fails []failure, rejected bool) {
 
 	if c.has("clone") {
 		fails = append(fails, h.clonePart(c, bt, s)...)
+	}
+	if c.has("config") {
+		fails = append(fails, h.configPart(c)...)
 	}
 	return fails, false
 }
@@ -809,6 +815,7 @@ var obligations = map[string][2]string{
 	"rebuild":  {"oracle: same ParseAndValidate verdict on the original and on the schema rebuilt from introspection JSON", "oracle"},
 	"clone":    {"oracle: Clone introspects identically, shares no mutable container, mutating it leaves the original unchanged", "oracle"},
 	"history":  {"oracle: a definition modified after use (clone + hook; modify + build again) introspects as the modified definition", "oracle"},
+	"config":   {"oracle: PreprocessGraphQLSchemaDefinition (config.go) gets a clone: nothing shared with the configured types, overwriting it leaves them unchanged, its modifications are served, its error fails NewAPI", "oracle"},
 	"model":    {"correspondence: model introspect / new / rebuild / clone == implementation (canonical S-expressions)", "correspondence"},
 }
 
@@ -865,6 +872,9 @@ func (h *harness) check(c *Case) {
 
 // shrink drops parts of the case while a failure with the same signature remains.
 func (h *harness) shrink(c *Case, f failure) (*Case, failure) {
+	if len(c.Parts) == 1 && c.Parts[0] == "clonecrash" {
+		return c, f // only ever run in a child process
+	}
 	h.quiet = true
 	defer func() { h.quiet = false }()
 	deadline := time.Now().Add(4 * time.Second)
@@ -1050,7 +1060,7 @@ func (h *harness) replay(path string) {
 	}
 	fails, rejected := h.runCase(&c)
 	fmt.Printf("replay %s: rejected-by-schema.New=%v failures=%d\n", path, rejected, len(fails))
-	if bt, s, err := safeBuild(c.S); err == nil {
+	if bt, s, err := safeBuild(c.S); err == nil && !(len(c.Parts) == 1 && c.Parts[0] == "clonecrash") {
 		for _, F := range c.Feats {
 			data, errs, crash := execIntro(s, F)
 			fmt.Printf("features %v\n implementation: %s errors=%v crash=%q\n", F, data, errs, crash)
@@ -1100,6 +1110,10 @@ func featureSetsFor(r *hx.Rand, d *SDef) [][]string {
 }
 
 func main() {
+	if p := os.Getenv("C10_CLONE_CHILD"); p != "" {
+		cloneChild(p)
+		return
+	}
 	run := hx.Init("C10")
 	h := &harness{run: run, reported: map[string]int{}}
 	if run.ModelPath != "" {
